@@ -116,8 +116,9 @@ def gen_rounds(seed, tier, run):
     # long lanes: a chunked / pairwise / early-exit reduction must not lose a tail
     shs += [[8], [17], [33], [64], [100], [2, 17], [17, 2], [3, 33], [33, 3], [2, 9, 2], [5, 7]]
     if tier == "thorough":
-        # (an escalated quick run — /repo changed — uses a tenth of the thorough volume: the lane oracle is slow)
-        shs += [rand_shape(rng, 5, (1, 2, 3, 4)) for _ in range(30 if os.environ.get("VERIF_ESCALATED") else 300)]
+        # (an escalated quick run — /repo changed — uses half of the thorough volume: the lane oracle is slow; 300 random
+        #  shapes made the extracted evaluator exceed its 20-minute limit on a loaded machine)
+        shs += [rand_shape(rng, 5, (1, 2, 3, 4)) for _ in range(30 if os.environ.get("VERIF_ESCALATED") else 60)]
     for k, sh in enumerate(shs):
         n = len(sh)
         axes = [None] + list(range(-n, n)) + [n, -n - 1, n + 2]
